@@ -415,3 +415,49 @@ def check_C15(c):
     c.assumptions += ["os-backed server: only aligned single 8-byte blocks (the kernel copies those atomically); RequestServer: ranges on a mutex-protected in-memory file",
                       "real-time order = order of Call/Ret events under the tracer mutex (an event order is only ever a sound under-approximation of precedence)"]
     return c.finish()
+
+
+def export_table(c, module, cfg, name):
+    """Exhaustive enumeration specs print one SCEN line per case."""
+    r = vlib.tlc(module, cfg, c.wd, timeout=900, workers=1)
+    if not r.ok:
+        raise Machinery("table export %s failed: %s %s\n%s" % (module, r.violated, r.error, r.raw[-2000:]))
+    cases = []
+    for line in r.raw.splitlines():
+        m = re.match(r'<<"SCEN", "(.*)">>$', line.strip())
+        if m:
+            cases.append(json.loads(m.group(1).encode().decode("unicode_escape")))
+    if not cases:
+        raise Machinery("no cases exported from " + module)
+    path = os.path.join(c.wd, name)
+    json.dump(cases, open(path, "w"))
+    c.cov["states"] += r.distinct
+    c.cov["transitions"] += r.generated
+    c.cov["tlc_runs"].append({"module": module, "cfg": cfg, "mode": "exhaustive enumeration of the table", "cases": len(cases), "distinct": r.distinct})
+    c.cov["exhaustive"] = True
+    c.cov["samples"].append({"kind": "case exported from " + module, "case": cases[c.seed % len(cases)]})
+    return path, cases
+
+
+def check_C09(c):
+    scen, cases = export_table(c, "ReadOnlyEnum", "ReadOnlyEnum.cfg", "scen_ro.json")
+    rc, out, path = c.run("TestVerif_ReadOnly", env={"VERIF_SCEN": scen}, timeout=3000)
+    c.cov["evaluations"] += len(cases)
+    c.cov["distinct_nontrivial"] += len(cases)
+    c.cov["rule"] = ("the complete decision table of ReadOnly.tla: OPEN x 64 pflag combinations x 5 target kinds, SETSTAT/FSETSTAT x 32 attribute-flag subsets, every path request and "
+                     "extended-request name x 5 target kinds, and two-step sequences (permitted OPEN/OPENDIR, then WRITE/FSETSTAT/READ/... through the handle); every case is distinct")
+    ev = vlib.read_ndjson(path)
+    found = c.validate("TraceRO", "TraceRO.cfg", path)
+    for f in found:
+        e = f["line"]
+        msg = f["state"].get("c09", "")
+        what = "tree-changed" if not e.get("same", True) else ("not-denied" if "permission" in msg else "reading-broken")
+        key = "Inv_C09,typ=%s,%s" % (e.get("typ"), what)
+        if e.get("typ") == "OPEN":
+            key += ",pflags=%d" % e["pflags"]
+        c.violation(key, "%s: case %s" % (msg, {k: e.get(k) for k in ("typ", "pflags", "target", "aflags", "via", "rtyp", "code", "wtyp", "wcode", "same")}),
+                    {"module": "TraceRO", "case": e, "tlc": msg})
+    c.cov["samples"].append({"kind": "replayed case", "event": [e for e in ev if e["ev"] == "ROCase"][c.seed % max(1, len(cases))]})
+    c.assumptions += ["snapshot = names, types, modes, sizes, contents, link targets, mtimes of the whole served tree (atime excluded)",
+                      "runs as root: permission bits do not protect the tree, so any leak through the gate is visible as a change"]
+    return c.finish()
